@@ -434,7 +434,7 @@ func runHistory(family, mode string, ln *Line, kset map[string]bool, params bool
 			report(Mismatch{Family: family, Entry: mode, Step: i + 1, What: "failure", Keys: []string{"fail"}, Exp: st.Fail, Got: fail, Line: raw})
 			return
 		}
-		if st.Op == "read" {
+		if st.Op == "read" || st.Op == "spdet" {
 			if !textsEq(st.Ret, ret) {
 				report(Mismatch{Family: family, Entry: mode, Step: i + 1, Handle: st.H, What: "read:" + st.N, Keys: []string{"ret"}, Exp: st.Ret, Got: ret, Line: raw})
 				return
